@@ -102,6 +102,26 @@ def _struct_pack_formats(path: Path, cls: str, meth: str):
     return []
 
 
+def _hasattr_names(path: Path, cls: str):
+    res = {}
+    tree = ast.parse(path.read_text())
+    for node in tree.body:
+        if isinstance(node, ast.ClassDef) and node.name == cls:
+            for fn in node.body:
+                if not isinstance(fn, ast.FunctionDef):
+                    continue
+                for c in ast.walk(fn):
+                    if (isinstance(c, ast.Call) and getattr(c.func, "id", "") == "hasattr" and len(c.args) == 2
+                            and isinstance(c.args[1], ast.Constant) and isinstance(c.args[1].value, str)):
+                        res.setdefault(fn.name, c.args[1].value)
+                    if fn.name == "hash" and isinstance(c, ast.Assign) and isinstance(c.targets[0], ast.Attribute):
+                        a = c.targets[0].attr
+                        if a.startswith("__") and not a.endswith("__"):
+                            a = "_" + cls.lstrip("_") + a
+                        res["@stored"] = a
+    return res
+
+
 def _pack_count_letter(path: Path):
     """the literal passed to `streamer.stream_struct(<lit>, f, len(kwargs[name]))` in pack_from_data"""
     tree = ast.parse(path.read_text())
@@ -194,6 +214,15 @@ def generate():
             seen[nm] = fmt
             out.append("/-- `%s_struct(\"%s\", …)` in %s:%s.%s -/" % (kind, fmt, rel, cls, meth))
             out.append("def %s : List Char := %s" % (nm, _lean_str(fmt)))
+    # the header-hash cache of Block: which attribute names hash() and set_nonce() test with hasattr (string literals are
+    # NOT name-mangled), and the mangled name under which `self.__hash = …` really stores the value
+    names = _hasattr_names(root / "block.py", "Block")
+    out.append("/-- `hasattr(self, <literal>)` in Block.hash -/")
+    out.append("def block_hash_hasattr : List Char := %s" % _lean_str(names.get("hash", "")))
+    out.append("/-- `hasattr(self, <literal>)` in Block.set_nonce -/")
+    out.append("def block_set_nonce_hasattr : List Char := %s" % _lean_str(names.get("set_nonce", "")))
+    out.append("/-- the instance attribute `self.__hash = …` creates inside `class Block` (name mangling) -/")
+    out.append("def block_hash_attr : List Char := %s" % _lean_str(names.get("@stored", "")))
     fm = _struct_pack_formats(root / "message" / "PeerAddress.py", "PeerAddress", "stream")
     out.append("/-- the `struct.pack` formats of PeerAddress.stream, in order (the raw `ip_bin` is written between them) -/")
     out.append("def peerAddress_stream_packs : List (List Char) := [%s]" % ", ".join(_lean_str(x) for x in fm))
